@@ -422,6 +422,29 @@ pub fn random_optable(rng: &mut Rng) -> OpTable {
     OpTable { bin, un, post }
 }
 
+/// Give one binary operator of the table a second rule with the same operator text but another level
+/// (a reduce/reduce conflict resolved by precedence; the lower rule's readings still take part in the
+/// shift/reduce decisions).  `variant` cycles through: twin declared before/after the original,
+/// twin level above/below, twin associativity equal/opposite.
+#[allow(dead_code)]
+pub fn add_twin(t: &mut OpTable, variant: usize, rng: &mut Rng) {
+    if t.bin.is_empty() {
+        return;
+    }
+    let i = rng.below(t.bin.len());
+    let (text, lv, right, _) = t.bin[i].clone();
+    let before = variant & 1 == 1;
+    let above = variant & 2 == 2;
+    let opposite = variant & 4 == 4;
+    let d = 1 + rng.below(2) as i64;
+    let twin = (text, if above { lv + d } else { lv - d }, if opposite { !right } else { right }, format!("b{}", t.bin.len()));
+    if before {
+        t.bin.insert(i, twin);
+    } else {
+        t.bin.push(twin);
+    }
+}
+
 /// The tree-sitter grammar of an operator table (mirrored by `TsVerif.C03.opGrammarRules` in Lean).
 pub fn op_grammar(name: &str, t: &OpTable) -> Value {
     let mut alts = vec![sym("num"), sym("paren")];
